@@ -669,7 +669,7 @@ func genC12(r *rng, tier string) *Case {
 			if huge {
 				p.MU = append(p.MU, Stage{Op: pick(r, "first", "topsize", "present"), N: r.rangeInt(1, 30)})
 			} else {
-				p.MU = append(p.MU, Stage{Op: pick(r, "first", "topsize", "sum", "size", "noread", "present", "last"), N: r.rangeInt(1, 30)})
+				p.MU = append(p.MU, Stage{Op: pick(r, "first", "topsize", "sum", "size", "noread", "present", "last", "sum", "size", "notfunc", "arity2"), N: r.rangeInt(1, 30)})
 			}
 		}
 	}
